@@ -4,6 +4,7 @@ from ..core import queries as Q
 from ..core.program import fmt_term, fmt_atom
 
 META = {
+    "technique": "static analysis: repository-specific ownership / guard-dominance / typestate / path rules over LLVM IR (CFG, SSA, resolved call graph), constants of the bundled http_parser from the unit's macro table",
     "explanation": (
         "(1) R-OWN across the callback boundary: a read callback of the HTTP phase whose http_parser_execute can (through the "
         "resolved parser-settings callbacks and the url_handler.create hook) reach init_peer has the may-effect 'peer "
